@@ -50,7 +50,10 @@ def mk_RTLIRTranslator( _StructuralTranslator, _BehavioralTranslator ):
         for child in m.get_child_components(repr):
           translate_component( child, components )
 
-        name = s.structural.component_unique_name[m]
+        # Key the definition by the name it is emitted under: an explicit
+        # module name takes precedence over the unique name.
+        name = s.structural.component_explicit_module_name[m] or \
+               s.structural.component_unique_name[m]
         if name not in components:
           components[name] = s.rtlir_tr_component(
               get_component_nspace( s.behavioral, m ),
